@@ -33,10 +33,14 @@ impl TypeMeta for UnitTypeMeta {
 ///
 /// # Safety
 ///
-/// Though it is not unsafe to implement this trait, it is unsafe to construct a new `Gc` pointer
-/// with an arbitrary implementation of `PtrMeta` and you must assert that it is implemented
-/// correctly when doing so.
-pub trait PtrMeta<T: ?Sized, M> {
+/// Safe methods such as [`Gc::as_thin`](crate::Gc::as_thin) dereference what `from_thin` returns,
+/// for every `Gc` whose kind names the implementing type - including pointers the library itself
+/// creates with [`UnitPtrMeta`] (`unsize!`, `Gc::erase_kind`). An implementation must therefore
+/// convert faithfully: `from_thin(to_thin(p), meta)` is `p` whenever `meta` is the metadata of
+/// `p`, `Thin` is a prefix of every value of `T`, and `PtrMetadata` is what the allocation was
+/// made with. It is additionally unsafe to construct a new `Gc` pointer with an arbitrary
+/// implementation of `PtrMeta`, and you must assert that it is implemented correctly when doing so.
+pub unsafe trait PtrMeta<T: ?Sized, M> {
     type PtrMetadata: Copy + Send;
     type Thin;
 
@@ -83,7 +87,7 @@ pub trait AllocMeta<T: ?Sized, M>: PtrMeta<T, M> {
 /// cannot do pointer conversion and assumes nothing about the per-type or per-value metadata.
 pub struct UnitPtrMeta;
 
-impl<T, M> PtrMeta<T, M> for UnitPtrMeta {
+unsafe impl<T, M> PtrMeta<T, M> for UnitPtrMeta {
     type PtrMetadata = ();
     type Thin = T;
 
